@@ -131,6 +131,75 @@ def numpy_steps(M, rec, rng, n_nets, draws=3, opts_prob=0.0, on_case=None, regim
                 on_case(case, built)
 
 
+def small_valid_steps(M, rec, rng, nmax, k=0, n=1, before_case=None, seed=0):
+    """Every valid (topology, role) assignment on <= nmax labelled nodes (self-loops included),
+    each stepped once with the NumPy engine (sharded by index)."""
+    NE, CE = drive.engines(M)
+    g = G.NetGen(rng)
+    import random as _r
+
+    for i, desc in enumerate(G.all_valid_small(nmax, _r.Random(seed))):
+        if i % n != k:
+            continue
+        built = D.build(M, desc, D.random_ops(desc, rng) if rng.random() < 0.5 else None)
+        regime, vals = g.values(desc)
+        pars = g.pars()
+        rec.count("exhaustive_small_network_cases")
+        case = {"desc": desc, "vals": vals, "pars": pars, "opts": {}, "engine": "numpy", "regime": regime}
+        if before_case:
+            before_case(case, built)
+        try:
+            built.net.step(init_conditions=drive.np_init(built, vals, "vec1"), engine=NE(), **drive.step_pars(pars))
+        except Exception:
+            pass
+    rec.extra["exhaustive_small_nmax"] = nmax
+
+
+def symbolic_param_steps(M, rec, rng, symvals, n_nets, before_case=None):
+    """Symbolic steps in which a random subset of link / ramp / model parameters are symbols too
+    (the laws must treat parameters as opaque values)."""
+    from vf import compilecases as CC
+
+    NE, CE = drive.engines(M)
+    g = G.NetGen(rng)
+    sh = shapes_cycle()
+    import casadi as cs
+
+    for it in range(n_nets):
+        shp, desc, _b = make_net(M, g, next(sh), rng, random_ops=False)
+        st = ("SX", "MX")[it % 2]
+        XX = getattr(cs, st)
+        pars = g.pars()
+        cand = CC.candidate_params(desc, pars)
+        keys = rng.sample(cand, rng.randint(1, min(6, len(cand))))
+        _, vals = g.values(desc)
+        symvals.clear()
+        override, spars = {}, dict(pars)
+        linkd = {l["id"]: l for l in desc["links"]}
+        orgd = {o["id"]: o for o in desc["origins"]}
+        for (eid, attr) in keys:
+            if eid == "#":
+                s = XX.sym("P_" + attr)
+                spars[attr] = s
+                symvals.set("P_" + attr, pars[attr])
+            else:
+                s = XX.sym(f"P_{attr}_{eid}")
+                override[(eid, attr)] = s
+                symvals.set(f"P_{attr}_{eid}", (linkd.get(eid) or orgd.get(eid))[attr])
+        built = D.build(M, desc, D.random_ops(desc, rng), param_override=override)
+        ic, syms = drive.sym_init(M, built, st, symvals, vals)
+        rec.count("symbolic_parameter_cases")
+        for k_ in keys:
+            rec.seen("symbolic_parameter_kinds", k_[1])
+        case = {"desc": desc, "vals": vals, "pars": pars, "opts": {}, "engine": st, "symbolic_parameters": [list(k_) for k_ in keys]}
+        if before_case:
+            before_case(case, built)
+        try:
+            built.net.step(init_conditions=ic, engine=CE(st), **drive.step_pars(spars))
+        except Exception:
+            pass
+
+
 def symbolic_steps(M, rec, rng, symvals, n_nets, points=3, symtypes=("SX", "MX"), on_case=None,
                    opts_prob=0.0, before_case=None):
     """Networks stepped with the CasADi engine on symbols created by the harness; the
